@@ -331,12 +331,76 @@ static void battery(Ctx &c, Hist &h)
   }
 }
 
+// A variable made of two components, one of which is switched off and on again from the script (cvcflags), with the
+// per-atom gradients collected on request: value, gradients, applied force and the forces handed to the engine are
+// compared with own arithmetic on the current coordinates, which knows which component is active.
+static void components_case(Result &r, bool same_step, long nsteps)
+{
+  Scn sc; sc.id = "D"; sc.natoms = 6;
+  vproxy *px = new_px(sc, same_step);
+  std::string conf =
+      "colvar {\n name s\n distance {\n componentCoeff 1.5\n group1 { atomNumbers 1 }\n group2 { atomNumbers 2 }\n }\n"
+      " distance {\n componentCoeff -2.0\n group1 { atomNumbers 3 }\n group2 { atomNumbers 4 }\n }\n}\n"
+      "harmonic {\n name h\n colvars s\n centers 0.5\n forceConstant 2.0\n}\n";
+  if (px->config(conf) != 0) { fprintf(stderr, "HARNESS-ERROR: part 2 components configuration rejected: %s\n", px->errtxt.c_str()); _exit(2); }
+  if (cvs(*px, W({"cv", "colvar", "s", "set", "collect_gradient", "1"})).rc != 0) { fprintf(stderr, "HARNESS-ERROR: collect_gradient\n"); _exit(2); }
+  bool on2 = true;
+  auto bad = [&](long st, std::string const &what, std::string const &got, std::string const &want) {
+    r.violation("C20:agree:two-component-variable:" + what + (on2 ? "" : ":second-component-switched-off"),
+                "{\"part\":2,\"scenario\":\"D\",\"total_forces_same_step\":" + std::string(same_step ? "true" : "false") + ",\"after_engine_step\":" + std::to_string(st) +
+                ",\"second_component_active\":" + (on2 ? "true" : "false") + ",\"script_returned\":\"" + jesc(got.substr(0, 300)) + "\",\"own_arithmetic\":\"" + jesc(want.substr(0, 300)) + "\"}");
+  };
+  for (long s = 0; s < nsteps; s++) {
+    // the second component is switched off before step 2 and on again before step 4
+    if (s == 2 || s == 4) {
+      on2 = (s == 4);
+      SR f = cvs(*px, W({"cv", "colvar", "s", "cvcflags", on2 ? "1 1" : "1 0"}));
+      r.count("transitions");
+      if (f.rc != 0) { bad(s, "cvcflags-refused", f.out + f.msgs, ""); break; }
+    }
+    place(*px, s);
+    if (px->step(s) != 0) { bad(s, "step-fails", px->errtxt, ""); break; }
+    r.count("transitions");
+    cvm::rvector d1 = px->x[1] - px->x[0], d2 = px->x[3] - px->x[2];
+    double v = 1.5 * d1.norm() + (on2 ? -2.0 * d2.norm() : 0.0);
+    double f = -2.0 * (v - 0.5);
+    // per-atom gradients, in the order of the sorted atom ids 0..3
+    std::vector<cvm::rvector> g(4);
+    g[0] = -1.5 * d1.unit(); g[1] = 1.5 * d1.unit();
+    g[2] = on2 ? 2.0 * d2.unit() : cvm::rvector(0, 0, 0); g[3] = on2 ? -2.0 * d2.unit() : cvm::rvector(0, 0, 0);
+    auto cmp = [&](std::vector<std::string> const &w, std::string const &what, std::vector<double> const &want) {
+      r.count("evaluations"); r.count("p2_comparisons");
+      r.seen("nontrivial", "p2:D:" + std::to_string(same_step) + ":" + std::to_string(s) + ":" + what);
+      SR q = cvs(*px, w);
+      std::vector<double> got;
+      std::string ws; for (double d : want) ws += num(d) + " ";
+      if (q.rc != 0 || !parse_nums(q.out, got) || got.size() != want.size()) { bad(s, what + ":shape", q.out + q.msgs, ws); return; }
+      for (size_t i = 0; i < got.size(); i++) if (!eq_at(got[i], want[i], 15, 1e-11)) { bad(s, what, q.out, ws); return; }
+    };
+    cmp(W({"cv", "colvar", "s", "value"}), "value", {v});
+    cmp(W({"cv", "colvar", "s", "getappliedforce"}), "applied-force", {f});
+    cmp(W({"cv", "colvar", "s", "getatomids"}), "atom-ids", {0, 1, 2, 3});
+    cmp(W({"cv", "colvar", "s", "getgradients"}), "gradients", rv(g));
+    std::vector<cvm::rvector> af(4);
+    for (int a = 0; a < 4; a++) af[a] = f * g[a];
+    cmp(W({"cv", "getatomappliedforces"}), "atom-forces-are-applied-force-times-gradient", rv(af));
+    std::vector<double> eng;
+    for (int a = 0; a < 4; a++) { eng.push_back(px->fapp[a].x); eng.push_back(px->fapp[a].y); eng.push_back(px->fapp[a].z); }
+    std::vector<double> afv = rv(af);
+    for (size_t i = 0; i < afv.size(); i++) if (!eq_at(eng[i], afv[i], 15, 1e-11)) { bad(s, "forces-received-by-the-engine", num(eng[i]), num(afv[i])); break; }
+    r.seen("states", "D" + std::to_string(same_step) + std::to_string(s) + num(v));
+  }
+  delete px;
+}
+
 void part2(std::vector<Scn> const &scs, Args const &args, Result &total)
 {
   // (scenario, timing convention, variant): variant 0 plain run, 1 resumed from the donor state, 2 step counter beyond 2^31
   struct Job { int si; bool same; int variant; };
   std::vector<Job> jobs;
   for (int si = 0; si < (int) scs.size(); si++) for (int same = 0; same < 2; same++) for (int var = 0; var < 3; var++) jobs.push_back({si, same != 0, var});
+  jobs.push_back({-1, true, 0});   // two-component variable with cvcflags (own scenario D)
+  jobs.push_back({-1, false, 0});
   long nsteps = args.thorough() ? 8 : 5;
   std::string scratch = args.kv.count("scratch") ? args.kv.at("scratch") : ".";
   bool ok = run_sharded((int) std::min<size_t>(args.jobs, jobs.size()), [&](int shard, int nsh, Result &r) {
@@ -346,6 +410,7 @@ void part2(std::vector<Scn> const &scs, Args const &args, Result &total)
     for (size_t j = shard; j < jobs.size(); j += nsh) {
       run_cases_forked(j, j + 1, [&](size_t ji, Result &rr) {
         Job const &jb = jobs[ji];
+        if (jb.si < 0) { components_case(rr, jb.same, std::max<long>(nsteps, 6)); return; }
         Scn const &sc = scs[jb.si];
         vproxy *px = new_px(sc, jb.same);
         if (px->config(all_conf(sc)) != 0) { fprintf(stderr, "HARNESS-ERROR: part 2 configuration rejected: %s\n", px->errtxt.c_str()); _exit(2); }
@@ -375,7 +440,7 @@ void part2(std::vector<Scn> const &scs, Args const &args, Result &total)
         }
         delete px;
       }, [&](size_t ji, std::string const &kind, std::string const &tail) {
-        r.violation("C20:crash:query-battery:" + kind, "{\"part\":2,\"scenario\":\"" + scs[jobs[ji].si].id + "\",\"death\":\"" + jesc(kind) + "\",\"report\":\"" + jesc(tail) + "\"}");
+        r.violation("C20:crash:query-battery:" + kind, "{\"part\":2,\"scenario\":\"" + (jobs[ji].si < 0 ? std::string("D") : scs[jobs[ji].si].id) + "\",\"death\":\"" + jesc(kind) + "\",\"report\":\"" + jesc(tail) + "\"}");
       }, r);
     }
   }, total, 1800);
